@@ -12,6 +12,7 @@ Proof: `Lemmas/Trie.lean` — a ghost map from used slots to label paths, an inv
 -/
 import Chokan.Model.Trie
 import Chokan.Lemmas.Trie
+import Chokan.Lemmas.TrieProgress
 
 namespace Chokan.Props.C04
 open Chokan.Trie
@@ -259,6 +260,57 @@ theorem C04 : C04_statement := by
       refine Or.inr ⟨r ++ [alpha.length + 1], (mem_insertedLabels alpha _ ops).2 ⟨key, hkey, r, hk, rfl⟩,
         (r ++ [alpha.length + 1]).length, by simp, Nat.le_refl _,
         (List.take_of_length_le (Nat.le_refl _)).symm⟩
+
+/-- No panic: in every state reached by a history, an insertion never hits an `expect`, an index
+out of range, `Base + Label` on an unused base, or the assertions of `xcheck` and `rebase`. -/
+theorem C04_no_panic (t : Trie) (Ks : List (List Nat)) (key oracle : List Nat) (h : Holds t Ks) :
+    t.insert key oracle ≠ .panic := by
+  obtain ⟨A, hI, hF, _⟩ := h
+  unfold Trie.insert Trie.keyToLabels
+  cases hk : keyLabels t.alpha key with
+  | none => simp
+  | some r =>
+    simp only [Option.map_some]
+    have hlab : ∀ l ∈ r ++ [t.terminal], 1 ≤ l ∧ l ≤ t.nLabels := by
+      intro l hl
+      rcases List.mem_append.1 hl with hl | hl
+      · have := keyLabels_bound t.alpha key r hk l hl
+        simp only [Trie.nLabels]; omega
+      · simp only [List.mem_singleton] at hl; subst hl
+        simp [Trie.terminal, Trie.nLabels]
+    cases hl : insertLoop t.nLabels t.nodes 0 (r ++ [t.terminal]) oracle with
+    | ok res => simp
+    | reject => simp
+    | panic =>
+      exact absurd hl (insertLoop_ne_panic t.nLabels _ t.nodes 0 oracle A [] hI hF hI.root_path hlab)
+    | badOracle => simp
+
+/-- The only way a history fails to run in the model is an `xcheck` answer the implementation's loop
+could not have produced: every prefix runs, up to an insertion that reports `badOracle`. -/
+theorem C04_only_bad_oracle : ∀ (ops : List Op) (t : Trie) (Ks : List (List Nat)), Holds t Ks →
+    run t ops = none →
+    ∃ pre key oracle post t', ops = pre ++ .insert key oracle :: post ∧ run t pre = some t' ∧
+      t'.insert key oracle = .badOracle
+  | [], t, Ks, _, h => by simp [run] at h
+  | .roundTrip :: ops, t, Ks, hH, h => by
+    obtain ⟨pre, key, oracle, post, t', h1, h2, h3⟩ := C04_only_bad_oracle ops t Ks hH h
+    exact ⟨.roundTrip :: pre, key, oracle, post, t', by rw [h1]; rfl, h2, h3⟩
+  | .insert key oracle :: ops, t, Ks, hH, h => by
+    obtain ⟨hok, _⟩ := insert_holds t Ks key oracle hH
+    simp only [run] at h
+    cases hi : t.insert key oracle with
+    | ok res =>
+      obtain ⟨t1, rest⟩ := res
+      simp only [hi] at h
+      obtain ⟨r, _, _, hH1⟩ := hok t1 rest hi
+      obtain ⟨pre, key', oracle', post, t', h1, h2, h3⟩ := C04_only_bad_oracle ops t1 _ hH1 h
+      exact ⟨.insert key oracle :: pre, key', oracle', post, t', by rw [h1]; rfl, by simp [run, hi, h2], h3⟩
+    | reject =>
+      simp only [hi] at h
+      obtain ⟨pre, key', oracle', post, t', h1, h2, h3⟩ := C04_only_bad_oracle ops t Ks hH h
+      exact ⟨.insert key oracle :: pre, key', oracle', post, t', by rw [h1]; rfl, by simp [run, hi, h2], h3⟩
+    | panic => exact absurd hi (C04_no_panic t Ks key oracle hH)
+    | badOracle => exact ⟨[], key, oracle, ops, t, rfl, rfl, hi⟩
 
 /-- Non-vacuity: a concrete history whose last insertion relocates the two children of a node
 (`rebase` from base 2 to base 10) runs without panic under the listed `xcheck` answers, and finds
